@@ -206,9 +206,25 @@ func cellFromCellBlock(b []byte) (*pb.Cell, uint32, error) {
 			"buffer is too small: expected %d, got %d", int(kvLen)+4, len(b))
 	}
 
+	// smallest KeyValue: key and value lengths, row length, family
+	// length, timestamp and type
+	const minKVLen = 4 + 4 + 2 + 1 + 8 + 1
+	if kvLen < minKVLen {
+		return nil, 0, fmt.Errorf("KeyValue is too small: expected at least %d, got %d",
+			minKVLen, kvLen)
+	}
+
 	rowKeyLen := binary.BigEndian.Uint32(b[4:8])
 	valueLen := binary.BigEndian.Uint32(b[8:12])
 	keyLen := binary.BigEndian.Uint16(b[12:14])
+	if got := 4 + 4 + uint64(rowKeyLen) + uint64(valueLen); got != uint64(kvLen) {
+		return nil, 0, fmt.Errorf("HBase has lied about KeyValue length: expected %d, got %d",
+			kvLen, got)
+	}
+	if uint64(keyLen)+2+1+8+1 > uint64(rowKeyLen) {
+		return nil, 0, fmt.Errorf("HBase has lied about KeyValue key length: "+
+			"row length %d doesn't fit in key length %d", keyLen, rowKeyLen)
+	}
 	b = b[14:]
 
 	key := b[:keyLen]
@@ -216,6 +232,11 @@ func cellFromCellBlock(b []byte) (*pb.Cell, uint32, error) {
 
 	familyLen := b[0]
 	b = b[1:]
+	if uint64(keyLen)+uint64(familyLen)+2+1+8+1 > uint64(rowKeyLen) {
+		return nil, 0, fmt.Errorf("HBase has lied about KeyValue key length: "+
+			"row length %d and family length %d don't fit in key length %d",
+			keyLen, familyLen, rowKeyLen)
+	}
 
 	family := b[:familyLen]
 	b = b[familyLen:]
@@ -249,6 +270,12 @@ func cellFromCellBlock(b []byte) (*pb.Cell, uint32, error) {
 }
 
 func deserializeCellBlocks(b []byte, cellsLen uint32) ([]*pb.Cell, uint32, error) {
+	// every cell takes at least 4 bytes of length and a minimal KeyValue,
+	// don't trust the count more than the data that came with it
+	if uint64(cellsLen)*(4+4+4+2+1+8+1) > uint64(len(b)) {
+		return nil, 0, fmt.Errorf(
+			"buffer is too small: %d cells cannot fit in %d bytes", cellsLen, len(b))
+	}
 	cells := make([]*pb.Cell, cellsLen)
 	var readLen uint32
 	for i := 0; i < int(cellsLen); i++ {
